@@ -140,6 +140,7 @@ def run(sim: Sim) -> None:
             h.reset_minimal()
             h.compute()
         game = h.g
+    other = em.OtherClientEnv(sim, n, comp_name, GAPS[sim.pick(sorted(GAPS), "other-env-gap")], cls) if n <= 5 else None
     episodes = 1 + sim.choose(3, "episodes")
     for ep in range(episodes):
         if ep > 0:  # the same long-lived object plays another hidden game
@@ -160,36 +161,11 @@ def run(sim: Sim) -> None:
         if ep < episodes - 1 and sim.flip(1, 2, "partial-episode"):
             order = order[:1 + sim.choose(len(order), "episode-length")]
         _episode(sim, n, comp_name, path, env, h, game, values, exact, scale, GAPS, order, explorable, ctx,
-                 full=len(order) == len(explorable))
+                 full=len(order) == len(explorable), other=other)
 
 
-_OTHER: dict = {}
-
-
-def _other_env_activity(sim: Sim, n: int, comp_name: str, GAPS, values, upcoming: int) -> None:
-    """A second live environment of the same process (same n, same initial knowledge, another hidden game)
-    is stepped between the reveals of the judged one - two clients of one process, interleaved."""
-    key = id(sim)
-    try:
-        if key not in _OTHER:
-            _OTHER.clear()
-            cls = "SAM" if comp_name.startswith("sam") else "SA"
-            v2, _ = games.draw_game(sim, n, cls)
-            _OTHER[key] = em.make_env(n, comp_name, em.ListSource([v2], n), GAPS[sim.pick(sorted(GAPS), "other-env-gap")], None)
-        env2 = _OTHER[key]
-        valid = [int(a) for a in np.nonzero(env2.action_masks())[0]]
-        if not valid or sim.flip(1, 8, "other-env-reset"):
-            env2.reset()
-        elif upcoming in valid and sim.flip(1, 2, "other-env-lockstep"):
-            env2.step(upcoming)  # the other client makes the same move just before the judged one
-        else:
-            env2.step(sim.pick(valid, "other-env-action"))
-        sim.fault("other_live_environment_stepped")
-    except Exception as e:  # not judged
-        sim.event("other-env-raised", type(e).__name__)
-
-
-def _episode(sim: Sim, n, comp_name, path, env, h, game, values, exact, scale, GAPS, order, explorable, ctx, full) -> None:
+def _episode(sim: Sim, n, comp_name, path, env, h, game, values, exact, scale, GAPS, order, explorable, ctx, full,
+             other=None) -> None:
     old = games.arrays(game)
     g_old = gaps_of(sim, game, GAPS, scale, ctx)
     revealed: list[int] = []
@@ -201,8 +177,8 @@ def _episode(sim: Sim, n, comp_name, path, env, h, game, values, exact, scale, G
         d = sim.pick_weighted([("none", 6), ("probe", 2), ("torn", 1), ("evict", 1), ("other_use", 1), ("other_env", 1)], "disturbance")
         if d == "other_use":
             prelude.warm_process(sim, label="midrun")
-        if d == "other_env" and n <= 5:
-            _other_env_activity(sim, n, comp_name, GAPS, values, a)
+        if d == "other_env" and n <= 5 and other is not None:
+            other.act(a)
         with sim.guard("C07.operation_raised"):
             if d == "evict":
                 seams.clear_memos()
